@@ -19,6 +19,7 @@ import (
 	"strconv"
 	"strings"
 	"sync"
+	"sync/atomic"
 	"time"
 )
 
@@ -76,6 +77,11 @@ type Run struct {
 	perKey   map[string]int
 	idx      int64
 	nsamples int
+
+	// expired is set by a timer goroutine started in Start, i.e. normally
+	// outside of any synctest bubble, so that the internal deadline follows
+	// the wall clock even when the exploration runs under a virtual clock.
+	expired atomic.Bool
 }
 
 // maxPerKey is the maximum number of violations with the same key that are
@@ -121,6 +127,10 @@ func Start(id string) (r *Run) {
 		budget = 3600
 	}
 	r.deadline = r.start.Add(time.Duration(budget) * time.Second)
+	go func() {
+		time.Sleep(time.Duration(budget) * time.Second)
+		r.expired.Store(true)
+	}()
 	if p := os.Getenv("VERIF_REPLAY"); p != "" {
 		data, err := os.ReadFile(p)
 		if err != nil {
@@ -182,7 +192,7 @@ func (r *Run) NShards() (i, n int) { return r.sh.Shard, r.sh.NShards }
 // Expired reports whether the internal deadline has passed.  When it has the
 // check must stop exploring; the run is then marked as not exhaustive.
 func (r *Run) Expired() bool {
-	if time.Now().After(r.deadline) {
+	if r.expired.Load() {
 		r.mu.Lock()
 		r.sh.Exhaustive = false
 		r.mu.Unlock()
